@@ -716,12 +716,18 @@ struct TemplateCore {
 
                 case TagPatterns::LoopEndID: {
                     if ((loop_tag != nullptr) && parent_storage.IsNotEmpty()) {
-                        storage = *(parent_storage.Last());
-                        parent_storage.Drop(SizeT{1});
+                        Array<TagBit> *tmp     = *(parent_storage.Last());
+                        TagBit        *tag_bit = tmp->Last();
 
-                        LoopTag &tag  = storage->Last()->GetLoopTag();
-                        tag.EndOffset = (finder.GetOffset() - TagPatterns::LoopSuffixLength);
-                        loop_tag      = tag.Parent;
+                        // Only close a loop: the innermost open tag can be an <if> or an unfinished inline tag.
+                        if (tag_bit->GetType() == TagType::Loop) {
+                            storage = tmp;
+                            parent_storage.Drop(SizeT{1});
+
+                            LoopTag &tag  = tag_bit->GetLoopTag();
+                            tag.EndOffset = (finder.GetOffset() - TagPatterns::LoopSuffixLength);
+                            loop_tag      = tag.Parent;
+                        }
                     }
 
                     finder.Next();
